@@ -287,6 +287,7 @@ def judge(res, U, Ulines, r, wr, flags, tape, prior_oracle=None):
 def run_one(tape, tier, prop):
     res = RunResult()
     t = tape
+    res.stats["queue_size_knob_%s" % session.draw_queue_knob(t)] += 1
     spec = gen_world(t)
     flags = {"skip_brute": False, "skip_case": t.chance(1, 8)}
     wr = scratch.fresh_disk()
